@@ -1,163 +1,63 @@
-(* Wrap/GenWrapRepaired.v - a repair sketch for wrap_generator / wrap_async_generator and the
-   proof that it restores the property.  This is NOT what /repo contains; it documents that
-   the defects refuted in Wrap/GenWrap.v have a small fix:
+(* Wrap/GenWrapRepaired.v - the forwarding variant of wrap_generator / wrap_async_generator
+   (fwd = true in Wrap/GenWrap.v): the repair of "throw()/close() are not forwarded".
+   This is NOT what /repo contains while `repo_forwards = false`.
 
        def wrapper(ARGS):
            g = func(ARGS)
-           input_ = None
-           exc = None
+           input_ = exc = None
            while True:
                self.enable_by_count()
                try:
                    item = g.send(input_) if exc is None else g.throw(exc)
                except StopIteration as e:
-                   return e.value                   # was: return
+                   return e.value
                finally:
+                   exc = None
                    self.disable_by_count()
                try:
                    input_ = (yield item)
-                   exc = None
-               except BaseException as e:           # was: not handled (incl. GeneratorExit from close())
+               except BaseException as e:       # throw() / close() / finalisation: forward to g
                    exc = e
 
-   (async version: asend / athrow, `except StopAsyncIteration: return`.) *)
+   (async: `(await g.asend(input_)) if exc is None else (await g.athrow(exc))`,
+   `except StopAsyncIteration: return`.)
+
+   Proved in Wrap/GenWrap.v for this variant: wrap_gen_fwd_ops (every body, every history: all
+   answers and everything the body sees during the operations are the original's) and
+   wrap_gen_fwd_full (plus finalisation, for bodies that honour the close contract).  The one
+   thing no wrapper holding the inner generator can hide: a body that yields when it is finalised
+   is finalised a second time when the wrapper's frame is destroyed. *)
 From Coq Require Import List ZArith Bool Lia.
-From LP Require Import Wrap.Protocol Wrap.GenWrap Wrap.CoroWrap.
+From LP Require Import Wrap.Protocol Wrap.GenWrap.
 Import ListNotations.
 Open Scope Z_scope.
 
-Section Repaired.
-  Context {S : Type}.
-  Variable k : kind.
-  Variable b : ebody S.
-  Variable kill : S -> list event.
-  Variable s0 : S.
-
-  Definition fixed_loop (g : gstate S) (o : op) : list event * bstep (wstate S) :=
-    let '(ev, out, g') := gen_op k b s0 g o in
-    match out with
-    | OYield item => ([EEnable] ++ ev ++ [EDisable], BYield item (WAt g'))
-    | OStop v => ([EEnable] ++ ev ++ [EDisable] ++ drop b kill g', BReturn v)
-    | OStopAsync => ([EEnable] ++ ev ++ [EDisable] ++ drop b kill g', BReturn vnone)
-    | ORaise e => ([EEnable] ++ ev ++ [EDisable] ++ drop b kill g', BRaise e)
-    | ONone => ([EEnable] ++ ev ++ [EDisable] ++ drop b kill g', BRaise OtherErr)
-    end.
-
-  Definition wrap_gen_fixed : ebody (wstate S) := fun ws r =>
-    match ws, r with
-    | WInit, SendV _ => fixed_loop GCreated (OpSend vnone)
-    | WInit, ThrowE e => ([], BRaise e)
-    | WAt g, SendV v => fixed_loop g (OpSend v)
-    | WAt g, ThrowE e => fixed_loop g (OpThrow e)
-    end.
-End Repaired.
-
 Definition repaired_observe {S} (k : kind) (b : body S) (s0 : S) (ops : list op) :=
-  observe k (wrap_gen_fixed k (observed b) nokill s0) (wkill (observed b) nokill) WInit ops.
+  wrapped_observe_with true k b s0 ops.
 
-Section RepairedProof.
-  Context {S : Type}.
-  Variable k : kind.
-  Variable b : body S.
-  Variable s0 : S.
-  Hypothesis k_not_coro : k <> KCoro.
-  Hypothesis Hclose : honours_close b.
-
-  Let W := wrap_gen_fixed k (observed b) nokill s0.
-  Let WK := wkill (observed b) nokill.
-
-  Ltac fin := cbn; repeat split; try constructor.
-  Ltac rw := repeat match goal with H : (_ =? _) = _ |- _ => rewrite H end.
-  Ltac raise_case x :=
-    destruct (x =? StopIter) eqn:?; try destruct (x =? StopAsyncIter) eqn:?;
-    try destruct (x =? GenExit) eqn:?; cbn; rw; cbn; rw; fin.
-
-  Lemma fsim_step : forall p w o,
-    sim p w ->
-    let '(evp, outp, p') := gen_op k (observed b) s0 p o in
-    let '(evw, outw, w') := gen_op k W WInit w o in
-    erase evw = evp /\ outw = outp /\ sim p' w'.
-  Proof.
-    intros p w o H. destruct H as [| s |]; subst W; destruct o as [v | e |];
-      unfold gen_op, wrap_gen_fixed, fixed_loop, gen_op, observed, settle, settle_close, pep479.
-    - destruct (v =? vnone) eqn:Ev; [|fin].
-      change (vnone =? vnone) with true. cbv iota.
-      destruct (b s0 (SendV vnone)) as [y s' | rv | x] eqn:Eb.
-      + fin.
-      + destruct k; try congruence; fin.
-      + destruct k; try congruence; raise_case x.
-    - fin.
-    - fin.
-    - destruct (b s (SendV v)) as [y s' | rv | x] eqn:Eb.
-      + fin.
-      + destruct k; try congruence; fin.
-      + destruct k; try congruence; raise_case x.
-    - destruct (b s (ThrowE e)) as [y s' | rv | x] eqn:Eb.
-      + fin.
-      + destruct k; try congruence; fin.
-      + destruct k; try congruence; raise_case x.
-    - destruct (b s (ThrowE GenExit)) as [y s' | rv | x] eqn:Eb.
-      + exfalso. exact (Hclose _ _ _ Eb).
-      + destruct k; try congruence; fin.
-      + destruct k; try congruence; raise_case x.
-    - fin.
-    - fin.
-    - fin.
-  Qed.
-
-  Lemma fsim_drop : forall p w, sim p w -> erase (drop W WK w) = drop (observed b) nokill p.
-  Proof.
-    intros p w H. destruct H as [| s |]; try reflexivity.
-    subst W WK. unfold drop, wrap_gen_fixed, fixed_loop, gen_op, observed, settle, pep479, nokill.
-    destruct (b s (ThrowE GenExit)) as [y s' | rv | x] eqn:Eb.
-    - exfalso. exact (Hclose _ _ _ Eb).
-    - destruct k; reflexivity.
-    - destruct k; destruct (x =? StopIter); try destruct (x =? StopAsyncIter); reflexivity.
-  Qed.
-
-  Lemma fsim_run : forall ops p w,
-    sim p w ->
-    let '(trp, p') := run k (observed b) s0 p ops in
-    let '(trw, w') := run k W WInit w ops in
-    map (fun x => (erase (fst x), snd x)) trw = trp /\ sim p' w'.
-  Proof.
-    induction ops as [|o ops IH]; intros p w H; cbn [run].
-    - split; [reflexivity | assumption].
-    - pose proof (fsim_step p w o H) as Hstep.
-      destruct (gen_op k (observed b) s0 p o) as [[evp outp] p'].
-      destruct (gen_op k W WInit w o) as [[evw outw] w'].
-      destruct Hstep as (He & Ho' & Hsim).
-      specialize (IH p' w' Hsim).
-      destruct (run k (observed b) s0 p' ops) as [trp p''].
-      destruct (run k W WInit w' ops) as [trw w''].
-      destruct IH as [Ht Hsim']. split; [|assumption].
-      cbn [map fst snd]. rewrite He, Ho', Ht. reflexivity.
-  Qed.
-
-  Theorem wrap_gen_fixed_transparent : forall ops,
-    erase_obs (repaired_observe k b s0 ops) = plain_observe k b s0 ops.
-  Proof.
-    intros ops. unfold repaired_observe, plain_observe, observe.
-    pose proof (fsim_run ops GCreated GCreated sim_created) as H. fold W. fold WK.
-    destruct (run k (observed b) s0 GCreated ops) as [trp p'].
-    destruct (run k W WInit GCreated ops) as [trw w'].
-    destruct H as [Ht Hsim]. unfold erase_obs; cbn [fst snd].
-    rewrite Ht, (fsim_drop _ _ Hsim). reflexivity.
-  Qed.
-End RepairedProof.
-
-(* the three witnesses that refute the current wrapper are answered correctly by the repair
-   (wit_stubborn violates the close contract, so it is outside the theorem; its per-operation
-   answers are nevertheless those of the original) *)
+(* the witnesses that refute the non-forwarding wrapper are answered like the original *)
 Lemma repaired_on_witnesses :
-  erase_obs (repaired_observe KGen wit_ret 0 [OpNext; OpNext]) = plain_observe KGen wit_ret 0 [OpNext; OpNext]
-  /\ erase_obs (repaired_observe KGen wit_catch 0 [OpNext; OpThrow ValueErr; OpClose])
+  erase_obs (repaired_observe KGen wit_catch 0 [OpNext; OpThrow ValueErr; OpClose])
      = plain_observe KGen wit_catch 0 [OpNext; OpThrow ValueErr; OpClose]
-  /\ fst (erase_obs (repaired_observe KGen wit_stubborn 0 [OpNext; OpClose]))
-     = fst (plain_observe KGen wit_stubborn 0 [OpNext; OpClose])
   /\ plain_observe KGen wit_catch 0 [OpNext; OpThrow ValueErr; OpClose]
-     = ([([EIn (SendV 0)], OYield 1); ([EIn (ThrowE ValueErr)], OYield 5); ([EIn (ThrowE GenExit)], ONone)], []).
+     = ([([EIn (SendV 0)], OYield 1); ([EIn (ThrowE ValueErr)], OYield 5); ([EIn (ThrowE GenExit)], ONone)], [])
+  /\ fst (erase_obs (repaired_observe KGen wit_stubborn 0 [OpNext; OpClose; OpNext]))
+     = fst (plain_observe KGen wit_stubborn 0 [OpNext; OpClose; OpNext])
+  /\ fst (plain_observe KGen wit_stubborn 0 [OpNext; OpClose; OpNext])
+     = [([EIn (SendV 0)], OYield 1); ([EIn (ThrowE GenExit)], ORaise RuntimeErr); ([EIn (SendV 0)], OStop 0)]
+  /\ erase_obs (repaired_observe KAsync wit_catch 0 [OpNext; OpThrow ValueErr])
+     = plain_observe KAsync wit_catch 0 [OpNext; OpThrow ValueErr].
 Proof. repeat split; vm_compute; reflexivity. Qed.
+
+(* the residual difference, outside the close contract: finalisation of a stubborn body *)
+Lemma repaired_residual :
+  snd (erase_obs (repaired_observe KGen wit_stubborn 0 [OpNext])) = [EIn (ThrowE GenExit); EIn (ThrowE GenExit)]
+  /\ snd (plain_observe KGen wit_stubborn 0 [OpNext]) = [EIn (ThrowE GenExit)]
+  /\ ~ honours_close wit_stubborn.
+Proof.
+  repeat split; try (vm_compute; reflexivity).
+  intros H. exact (H 1 2 2 eq_refl).
+Qed.
 
 (* a body that honours the close contract, handles a thrown ValueError and returns a value *)
 Definition wit_good : body Z := fun s r =>
